@@ -43,7 +43,7 @@ func TestVerifC17FirstUse(t *testing.T) {
 	workers := 40
 	jobs := make([]*job, workers)
 	for i := range jobs {
-		d := randScalar(rng)
+		d := zvRandScalar(rng)
 		P := ref.BaseMulFast(d)
 		j := &job{d: ref.B32(d), px: ref.B32(P.X), py: ref.B32(P.Y), e: rng.Bytes(32), stream: rng.Bytes(32 * 6), id: []byte("1234567812345678"), msg: rng.Bytes(50)}
 		m := ref.SM2Sign(d, j.e, j.stream)
@@ -69,7 +69,7 @@ func TestVerifC17FirstUse(t *testing.T) {
 				p, pm, _, _ := hk.Try(func() {
 					switch kind {
 					case 0:
-						rr, ss, err := SignHashed(newScript(j.stream), j.d, j.e)
+						rr, ss, err := SignHashed(zvNewScript(j.stream), j.d, j.e)
 						if err != nil || !bytes.Equal(rr, j.wantR) || !bytes.Equal(ss, j.wantS) {
 							bad = "SignHashed differs from the model"
 						}
@@ -84,12 +84,12 @@ func TestVerifC17FirstUse(t *testing.T) {
 							bad = "DerivePublic differs from the model"
 						}
 					case 3:
-						priv, x, y, err := GenerateKey(newScript(j.kgStream))
+						priv, x, y, err := GenerateKey(zvNewScript(j.kgStream))
 						if err != nil || !bytes.Equal(priv, ref.B32(j.kg.D)) || !bytes.Equal(x, ref.B32(j.kg.Pub.X)) || !bytes.Equal(y, ref.B32(j.kg.Pub.Y)) {
 							bad = "GenerateKey differs from the model"
 						}
 					case 4:
-						rr, ss, err := Sign(j.id, j.px, j.py, newScript(j.stream), j.d, j.msg)
+						rr, ss, err := Sign(j.id, j.px, j.py, zvNewScript(j.stream), j.d, j.msg)
 						if err != nil || !bytes.Equal(rr, j.wantRI) || !bytes.Equal(ss, j.wantSI) {
 							bad = "Sign differs from the model"
 						}
